@@ -191,6 +191,59 @@ def rot4_writeback(b0: int, d0: int, r1: int, w1: int, r2: int, w2: int, r3: int
     return verdict(ok, nontrivial=nontrivial, sample=sample)
 
 
+# ---- shipped example and test kernels (real parser, real models, register-change tracking live) ------
+
+def _example_rot_concrete(ex, r):
+    from harness._pipeline import analyze, example_lines, EXAMPLES
+    lines = example_lines(ex)
+    arch = EXAMPLES[ex][1]
+    r = r % len(lines)
+
+    def lcds(ls):
+        res = analyze("\n".join(ls) + "\n", arch, whole=True)
+        ins = res["instr"]
+        # identify instructions by text + occurrence index in program order of the ORIGINAL kernel
+        return sorted((tuple(sorted(ins[i][0] for i in mem)), lat) for mem, lat in res["lcd"]), res["summary"]["lcd"]
+    return lcds(lines) == lcds(lines[r:] + lines[:r]), True, {"kernel": EXAMPLES[ex][0], "arch": arch, "lines": len(lines), "rotation": r}
+
+
+def examples_rot(ex: int, r: int) -> bool:
+    """
+    pre: 0 <= ex < 4 and 1 <= r < 21
+    post: _
+    """
+    # quick: the four smallest kernels (two with store->load dependencies) x every rotation offset
+    if skip(locals()):
+        return True
+    from harness._pipeline import example_lines
+    e = pick(ex, 4)
+    rr = pick(r, 21)
+    if rr >= len(native(example_lines, e)):
+        return True
+    ok, nt, sample = native(_example_rot_concrete, e, rr)
+    return verdict(ok, nontrivial=nt, sample=sample)
+
+
+def examples_rot_all(ex: int, r: int) -> bool:
+    """
+    pre: 0 <= ex < 16 and 1 <= r < 43
+    post: _
+    """
+    if skip(locals()):
+        return True
+    from harness._pipeline import example_lines
+    from vp.api import shard
+    lo, hi = shard(16)
+    if not (lo <= ex < hi):
+        return True
+    e = pick(ex, 16)
+    rr = pick(r, 43)
+    if rr >= len(native(example_lines, e)):
+        return True
+    ok, nt, sample = native(_example_rot_concrete, e, rr)
+    return verdict(ok, nontrivial=nt, sample=sample)
+
+
 CELLS = {
     "rot3_x86": {"fn": rot3_x86, "bound": "n=3, one read + one write per instruction, all 203 coincidence patterns x rotation offsets 1,2",
                  "budget": {"quick": 120, "thorough": 600}, "shards": 3},
@@ -198,6 +251,9 @@ CELLS = {
     "rot3_writeback": {"fn": rot3_writeback, "bound": "n=3, instruction 0 = AArch64 pre/post-indexed load or store (base write-back), all patterns x offsets",
                        "budget": {"quick": 170, "thorough": 900}, "shards": 5},
     "rot3_parallel": {"fn": rot3_parallel, "bound": "n=3, all 203 patterns x offsets x 1-4 stub worker processes: multi-process branch (threshold lowered)", "budget": {"quick": 170, "thorough": 600}, "shards": 5},
+    "examples_rot": {"fn": examples_rot, "bound": "4 shipped kernels (sum_reduction zen/tx2, kernel_x86_memdep, kernel_aarch64_memdep: store->load dependencies, register-change tracking) on zen1/zen2/tx2 x every rotation offset; real parser, ISA data and models",
+                     "budget": {"quick": 170, "thorough": 600}},
+    "examples_rot_all": {"fn": examples_rot_all, "tiers": ("thorough",), "bound": "16 shipped example/test kernels x every rotation offset", "budget": {"thorough": 1800}, "shards": 16},
     "rot3_a64_narrow": {"fn": rot3_a64_narrow, "tiers": ("thorough",), "bound": "n=3 on AArch64 with reads through the w alias", "budget": {"thorough": 600}, "shards": 5},
     "rot2_two_reads": {"fn": rot2_two_reads, "tiers": ("thorough",), "bound": "n=2, two reads + one write per instruction", "budget": {"thorough": 600}, "shards": 5},
     "rot4_writeback": {"fn": rot4_writeback, "tiers": ("thorough",), "bound": "n=4 with write-back instruction, all Bell(8) patterns x offsets x pre/post x load/store", "budget": {"thorough": 2400}, "shards": 52},
@@ -206,6 +262,6 @@ CELLS = {
 META = {
     "functions": ["KernelDG.check_for_loopcarried_dep", "KernelDG.create_DG", "KernelDG.find_depending", "KernelDG.is_read", "KernelDG.is_written", "KernelDG.is_memload", "KernelDG.is_memstore"],
     "bounds": "n=3 (quick) / 4 (thorough) instructions, all register coincidence patterns, every rotation offset; latencies 2^i so equal latency implies equal member multiset",
-    "outside": "shipped kernels; store->load dependencies under rotation with tracked register changes (arch_sem=None here, the address comparison uses unchanged registers)",
+    "outside": "shipped kernels other than the 16 listed in harness/_pipeline.py; models other than zen1/zen2/tx2; n > 4 for generated kernels",
     "assumptions": ["alias predicate native on concrete names per pattern"],
 }
